@@ -124,6 +124,32 @@ deriving Repr, DecidableEq, Inhabited
 /-- both directions map field by field -/
 def NodeInfo.conv (n : NodeInfo) : NodeInfo := { tlsMode := n.tlsMode, redis := n.redis }
 
+/-! ### sentinel: what reaches the monitored server -/
+
+/-- what `sentinel::Config::builder()` hands to `Manager::new` as the description of the
+connections to the monitored servers: the configured node info, converted - on every route
+that builds a manager (`none`: no manager is built) -/
+def sentinelNode {α β : Type} (urls : Option α) (conns : Option β) (node : Option NodeInfo) :
+    Option (Option NodeInfo) :=
+  match decide urls conns with
+  | .urlAndConnectionSpecified => none
+  | .useUrls _ => some (node.map NodeInfo.conv)
+  | .useConnections _ => some (node.map NodeInfo.conv)
+  | .useDefault => some (node.map NodeInfo.conv)
+
+/-- set-up commands of a connection to a monitored server (behaviour of the redis crate, a
+parameter of the model): `AUTH [user] pass` when a password is configured, `SELECT db` when
+the database is not 0 -/
+structure Wire where
+  auth : Option (Option String × String)
+  db : Int
+deriving Repr, DecidableEq, Inhabited
+
+def nodeWire (n : Option NodeInfo) : Wire :=
+  match n.bind (·.redis) with
+  | none => { auth := none, db := 0 }
+  | some r => { auth := r.password.map (fun p => (r.username, p)), db := r.db }
+
 /-! ### PoolConfig and its serialised form -/
 
 inductive QueueMode | fifo | lifo
